@@ -728,4 +728,85 @@ example :
     deepVal 5 (exec (callsSched .perCall objs exCalls) grSt).heap ⟨.config, 3⟩ = .list [.str "a", .tuple [.str "b", .str "c"]] := by
   decide +kernel
 
+/-! ### 10. two more shapes of the same defect: a process-global memo of a MUTABLE result, a partial copy
+
+  (a) `pypyr.steps.pype` with `pipeArg: <string>`: `shlex.split` makes a NEW list for every pype, which
+  `pypyr.parser.list` binds as the child's `argList` – `Instr.parserList` on the child run: its reading is one
+  `setKey "argList" <fresh block>` (fixed language, so every theorem above covers it: `parserList_reading_fixed`).  A
+  memo in front of the split (`functools.lru_cache`: equal strings get THE SAME list object) hands the list the
+  first child run was given – and changed in place – to every later child run: in the model the later run binds
+  an object of the EARLIER RUN's region by reference (`fmtFrom earlier … byRef := true`, not in the fixed
+  language).  `memoised_arglist_counterexample`: the later run starts from the list as the earlier run left it, its
+  append shows in the context of the run that was over, and the two runs – same pipeline, equal initial context –
+  end differently.  Any module-level cache (functools caches, module globals, class attributes) that holds a
+  mutable object it also hands to runs is this shape; the harness looks for it generically (monitor
+  `run-object-held-by-process-global-state`).
+
+  (b) `pypyr.steps.configvars` with a hand-written copy that rebuilds mappings and lists and returns everything else
+  as it is: a copy-by-rebuilding with a KEEP list – the operation `fmtSetAt … keep` on a configuration object, `keep` =
+  the set cells (yaml `!!set`).  `partial_copy_counterexample`: the kept set is the configuration's own object:
+  `pypyr.steps.add` on it changes `config.vars`, and the next run of the same pipeline ends differently.  With
+  `keep = []` (every container rebuilt – what `copy.deepcopy` / `configvarsCopy` do) nothing of that happens. -/
+
+/-- the reading of `pypyr.parser.list` (top-level run or pype child) is in the fixed language -/
+theorem parserList_reading_fixed (rd : Path → Option Kind) (args : List String) :
+    ∃ ops, opsOfK rd (.parserList args) = some ops ∧ ∀ o ∈ ops, Op.fixed o = true := by
+  refine ⟨_, rfl, ?_⟩
+  intro o ho
+  simp only [List.mem_singleton] at ho
+  subst ho; rfl
+
+/-- a child run of `pipeArg: lint src`: `Context()`, the parser binds argList, the child appends `--quiet` -/
+def argChild (first : Option Nat) : List Op :=
+  [.start [.dict []],
+   (match first with
+    | none => .setKey "argList" [.list [1, 2], .leaf (.str "lint"), .leaf (.str "src")]
+    | some r => .fmtFrom r [.key "argList"] [] "argList" true),
+   .appendAt [.key "argList"] [.leaf (.str "--quiet")]]
+
+theorem memoised_arglist_counterexample :
+    let memo := (exec (solo 1 (argChild none) ++ solo 2 (argChild (some 1))) (State.loaded [] [.dict []])).heap
+    let asIs := (exec (solo 1 (argChild none) ++ solo 2 (argChild none)) (State.loaded [] [.dict []])).heap
+    let one := (exec (solo 1 (argChild none)) (State.loaded [] [.dict []])).heap
+    Op.fixed (.fmtFrom 1 [.key "argList"] [] "argList" true) = false ∧
+    deepVal 5 one (root 1) = .dict [(.str "argList", .list [.str "lint", .str "src", .str "--quiet"])] ∧
+    -- memoised: run 2 ends with two `--quiet`, run 1 (over) has changed, run 2 reaches run 1's object
+    deepVal 5 memo (root 2) =
+      .dict [(.str "argList", .list [.str "lint", .str "src", .str "--quiet", .str "--quiet"])] ∧
+    deepVal 5 memo (root 1) ≠ deepVal 5 one (root 1) ∧
+    foreignReach 20 memo 2 = [⟨.run 1, 1⟩] ∧
+    -- as it is: run 2 = run 1, run 1 untouched, nothing foreign reachable
+    deepVal 5 asIs (root 2) = deepVal 5 one (root 1) ∧
+    asIs.arena (.run 1) = one.arena (.run 1) ∧
+    foreignReach 20 asIs 2 = [] := by
+  decide +kernel
+
+/-- `config.vars = {regions: !!set {eu, us}, owners: [ops]}` -/
+def setCfg : Block :=
+  [.dict [("regions", 1), ("owners", 4)], .set [2, 3], .leaf (.str "eu"), .leaf (.str "us"), .list [5], .leaf (.str "ops")]
+
+/-- configvars by a copy that keeps the cells `keep` of the config arena, then `pypyr.steps.add` / `append` -/
+def cfgKeepOps (keep : List Nat) : List Op :=
+  [.start [.dict []], .fmtSetAt [] "regions" ⟨.config, 1⟩ keep, .fmtSetAt [] "owners" ⟨.config, 4⟩ keep,
+   .addAt [.key "regions"] [.leaf (.str "ap")], .appendAt [.key "owners"] [.leaf (.str "oncall")]]
+
+theorem partial_copy_counterexample :
+    let st0 := State.loaded [] setCfg
+    let part := (exec (solo 1 (cfgKeepOps [1]) ++ solo 2 (cfgKeepOps [1])) st0).heap
+    let part1 := (exec (solo 1 (cfgKeepOps [1])) st0).heap
+    let full := (exec (solo 1 (cfgKeepOps []) ++ solo 2 (cfgKeepOps [])) st0).heap
+    Op.fixed (.fmtSetAt [] "regions" ⟨.config, 1⟩ [1]) = false ∧
+    -- the set is the configuration's own: config.vars changes, the context reaches it
+    part1.arena .config ≠ st0.heap.arena .config ∧
+    deepVal 5 part1 ⟨.config, 1⟩ = .set [.str "eu", .str "us", .str "ap"] ∧
+    foreignReach 20 part1 1 = [⟨.config, 1⟩] ∧
+    -- the list WAS rebuilt: that part of the configuration is intact (why tests with lists / mappings pass)
+    deepVal 5 part ⟨.config, 4⟩ = .list [.str "ops"] ∧
+    -- a full copy: configuration intact, nothing foreign reachable, run 2 = run 1
+    full.arena .config = st0.heap.arena .config ∧
+    foreignReach 20 full 1 = [] ∧ foreignReach 20 full 2 = [] ∧
+    deepVal 5 full (root 2) = deepVal 5 (exec (solo 1 (cfgKeepOps [])) st0).heap (root 1) ∧
+    (∀ o ∈ cfgKeepOps [], Op.fixed o = true) := by
+  decide +kernel
+
 end Pypyr.C12
